@@ -68,7 +68,8 @@ theorem row_follows_instruction (g : AddrGen) (ct : CodeTransform) (st : LineSt)
     (hout : lookupAddr ct.instructionMap loc = some o)
     (hmono : b ≤ o - ct.codeSectionStart) :
     lineStep g ct st (.row off line) =
-      some { st with out := st.out ++ [⟨o - ct.codeSectionStart, line, false⟩] } := by
+      some { st with out := st.out ++ [⟨o - ct.codeSectionStart, line, false⟩],
+                     lastOff := o - ct.codeSectionStart - b } := by
   have hc := instruction_address_follows_instruction g ct _ loc o .inclusiveEnd hin hout
   simp only [lineStep, lineStep.emit, hs, hb, hc, if_true]
   have : b + (o - ct.codeSectionStart - b) = o - ct.codeSectionStart := by omega
@@ -81,10 +82,88 @@ theorem sequence_begins_at_its_instruction (g : AddrGen) (ct : CodeTransform) (s
     (hout : lookupAddr ct.instructionMap loc = some o) :
     lineStep g ct st (.row 0 line) =
       some { st with seqBase := some (o - ct.codeSectionStart), inSeq := true,
-                     out := st.out ++ [⟨o - ct.codeSectionStart, line, false⟩] } := by
+                     out := st.out ++ [⟨o - ct.codeSectionStart, line, false⟩], lastOff := 0 } := by
   have hc1 := instruction_address_follows_instruction g ct _ loc o .exclusiveEnd hin hout
   have hc2 := instruction_address_follows_instruction g ct _ loc o .inclusiveEnd hin hout
   simp [lineStep, lineStep.emit, hs, hc1, hc2]
+
+/-- **the end of a sequence that lies in removed code closes the sequence at the last kept row**
+    (it used to leave the sequence open, and the next `SetAddress` then made `emit_wasm` panic:
+    defect D18): no address of removed code is written, and the loop can go on -/
+theorem sequence_end_in_removed_code_closes_at_the_last_kept_row (g : AddrGen) (ct : CodeTransform) (st : LineSt)
+    (off b : Nat) (hs : st.inSeq = true) (hb : st.seqBase = some b)
+    (hr : convertAddress g ct (st.fromBase + off) .inclusiveEnd = none) :
+    lineStep g ct st (.endSequence off) =
+      some { st with out := st.out ++ [⟨b + st.lastOff, 0, true⟩], inSeq := false, fromBase := st.fromBase + off } := by
+  simp [lineStep, lineStep.emit, hs, hb, hr]
+
+/-- an open sequence has a base (invariant of the row loop) -/
+def stOk (st : LineSt) : Prop := st.inSeq = true → st.seqBase.isSome = true
+
+theorem emit_ok (g : AddrGen) (ct : CodeTransform) (st : LineSt) (a : Nat) (line : Option Nat) (h : stOk st) :
+    stOk (lineStep.emit g ct st a line) := by
+  unfold lineStep.emit stOk at *
+  by_cases hs : st.inSeq = true
+  · have hb := h hs
+    obtain ⟨b, hb⟩ := Option.isSome_iff_exists.1 hb
+    simp only [hs, if_true, hb]
+    cases convertAddress g ct a .inclusiveEnd <;> cases line <;> simp [hs, hb]
+  · have hs' : st.inSeq = false := by simpa using hs
+    simp only [hs', Bool.false_eq_true, if_false]
+    cases hc : convertAddress g ct st.fromBase .exclusiveEnd with
+    | none => simp
+    | some b =>
+      simp only [Option.isSome_some, if_true]
+      cases convertAddress g ct a .inclusiveEnd <;> cases line <;> simp
+
+/-- after an `end_sequence` no sequence is open, whether or not its address resolved -/
+theorem end_sequence_closes (g : AddrGen) (ct : CodeTransform) (st : LineSt) (a : Nat) (h : stOk st) :
+    (lineStep.emit g ct st a none).inSeq = false := by
+  unfold lineStep.emit
+  by_cases hs : st.inSeq = true
+  · obtain ⟨b, hb⟩ := Option.isSome_iff_exists.1 (h hs)
+    simp only [hs, if_true, hb]
+    cases convertAddress g ct a .inclusiveEnd <;> simp [hs]
+  · have hs' : st.inSeq = false := by simpa using hs
+    simp only [hs', Bool.false_eq_true, if_false]
+    cases hc : convertAddress g ct st.fromBase .exclusiveEnd with
+    | none => simp
+    | some b =>
+      simp only [Option.isSome_some, if_true]
+      cases convertAddress g ct a .inclusiveEnd <;> simp
+
+/-- a line program in which every `SetAddress` stands at the start or right after an
+    `end_sequence` (what producers write: one `SetAddress` per sequence) -/
+def seqShaped : Bool → List LineInstr → Bool
+  | _, [] => true
+  | closed, .setAddress _ :: r => closed && seqShaped false r
+  | _, .row _ _ :: r => seqShaped false r
+  | _, .endSequence _ :: r => seqShaped true r
+
+theorem lineRun_total_aux (g : AddrGen) (ct : CodeTransform) : ∀ (prog : List LineInstr) (st : LineSt) (closed : Bool),
+    stOk st → (closed = true → st.inSeq = false) → seqShaped closed prog = true → (lineRun g ct st prog).isSome = true
+  | [], st, _, _, _, _ => rfl
+  | .setAddress a :: r, st, closed, hok, hc, hs => by
+      simp only [seqShaped, Bool.and_eq_true] at hs
+      have hin := hc hs.1
+      simp only [lineRun, lineStep, hin, Bool.false_eq_true, if_false, Option.bind_some]
+      exact lineRun_total_aux g ct r _ false (by simp [stOk, hin]) (by simp) hs.2
+  | .row off line :: r, st, closed, hok, hc, hs => by
+      simp only [seqShaped] at hs
+      simp only [lineRun, lineStep, Option.bind_some]
+      exact lineRun_total_aux g ct r _ false (emit_ok g ct st _ _ hok) (by simp) hs
+  | .endSequence off :: r, st, closed, hok, hc, hs => by
+      simp only [seqShaped] at hs
+      simp only [lineRun, lineStep, Option.bind_some]
+      exact lineRun_total_aux g ct r _ true (emit_ok g ct st _ _ hok)
+        (fun _ => end_sequence_closes g ct st _ hok) hs
+
+/-- **the conversion of a line program never fails** (so `emit_wasm` does not panic on it), whatever
+    was removed, inserted or reordered: for every address generator and code transform and every
+    sequence-shaped program -/
+theorem line_program_conversion_is_total (g : AddrGen) (ct : CodeTransform) (prog : List LineInstr)
+    (h : seqShaped true prog = true) : (lineRun g ct {} prog).isSome = true :=
+  lineRun_total_aux g ct prog {} true (by simp [stOk]) (fun _ => rfl) h
 
 /-- the offsets the bookkeeping assigns inside one function grow with the operator index, so a
     per-function sequence is monotone -/
